@@ -51,6 +51,7 @@ quick.append(job("c07.range", secs=120, jobs=4, n=2, d=2, metric=L1, leaf=1))
 # radii that are rounded square roots (and the doubles next to them) over integer lattice points: concrete f64 runs of
 # the three index kinds, membership decided exactly; the solver enumerates the 972 configurations (found F45)
 quick.append(job("c07.boundary", secs=120))
+quick.append(job("c07.boundary", secs=120, single=1))   # the f32 instantiation of the three indices
 quick.append(job("c07.lp_lattice", secs=120))
 thorough = list(quick)
 for kind in (BALL, KD, LIN):
